@@ -22,6 +22,7 @@ RULE = ("Hypothesis-generated histories (4 id/path flavours, provider-side event
         "children); declined paths hold exactly what each side's users put there.  Non-trivial = >=1 boundary-crossing "
         "move or >=1 prefix-sibling object, and >=1 sync step executed while it existed.")
 ASSUMPTIONS = [
+    "part xmove: one object is renamed/deleted inside the root on one side while the other side moves it out (both ops before any sync step, any delivery order afterwards); judged: nothing outside a root is touched by any engine step, every engine mutation addresses a path inside its root; files and empty folders only (XMOVE_NONEMPTY_DIR, open finding KF-45); write || move-out is open finding KF-23 and is not generated",
     "mock providers; envelope hazards PATH_REUSE, DIRMOVE_ISOLATED, DIRMOVE_TOMB, XSIDE (a move-out counts as a delete, a move-in as a create)",
     "the pure gadget 'object moved out of the root while its peer is edited on the other side' is an open finding (KF-23) and excluded by XSIDE; it is replayed every run",
     "MOVEIN_NONEMPTY_DIR: a non-empty folder is moved into a root only on an id-style side with provider-side event filtering (the mock then walks it); elsewhere its children are never announced (open finding KF-36)",
@@ -39,7 +40,9 @@ class DecliningCS(CloudSync):
 
 
 def budget(tier):
-    return {"workers": 16, "examples": 200 if tier == "quick" else 5000}
+    q = tier == "quick"
+    return [{"workers": 16, "examples": 200 if q else 5000},
+            {"part": "xmove", "workers": 16, "examples": 60 if q else 2000}]
 
 
 def gen(d, tier):
@@ -324,3 +327,63 @@ class Run(HistoryRun):
 
 def run(trace):
     return Run(trace).execute()
+
+
+# ----------------------------------------------------------------------------- part: xmove
+# One object is renamed (or deleted) inside the root on one side while the other side moves it out of its root, before
+# the engine has digested either.  The statement says what must NOT happen whatever the engine makes of the conflict:
+# the object now lives outside a root, so no engine step may touch it (rename it back in, overwrite it, delete it) and
+# no engine call may address a path outside the roots.  What the inside looks like afterwards is not judged.
+# (write || move-out is open finding KF-23 and is not generated.)
+def gen_xmove(d, tier):
+    cfg = draw_cfg(d)
+    world = World(path_style=(cfg["L"] == "path", cfg["R"] == "path"))
+    acts = []
+    roots = ("/local", "/remote")
+    outs = [[roots[s] + "X", roots[s] + ".bak", "/other", "/zout"] for s in (0, 1)]
+    for s in (0, 1):
+        for o in outs[s]:
+            acts.append(["u", s, "mkdir", "!" + o])
+    emit_base(d, world, acts, d.int(0, 1))
+    for rnd in range(1):        # one conflict per case: what the inside looks like afterwards is not modelled
+        t = world.side[0]
+        # hazard XMOVE_NONEMPTY_DIR (open finding KF-45): only files and empty folders; for a folder with children the
+        # engine goes on to delete the moved-out children OUTSIDE the root
+        objs = [p for p in t.files() + [g for g in t.dirs() if g and not t.subtree(g)] if world.settled_untouched(p)]
+        if not objs:
+            break
+        f = d.choice(objs)
+        a = d.int(0, 1)
+        b = 1 - a
+        kind = d.choice(("rename", "rename", "delete")) if not t.is_dir(f) else "rename"
+        news = [q for q in world.new_paths(a) if not under(q, f)]
+        if kind == "rename" and not news:
+            break
+        opa = ["u", a, "rename", f, d.choice(news)] if kind == "rename" else ["u", a, "delete", f]
+        opb = ["u", b, "rename", f, "!" + d.choice(outs[b]) + "/x%d" % rnd]
+        first, second = (opa, opb) if d.bool() else (opb, opa)
+        acts.append(first)
+        for _ in range(d.int(0, 2)):
+            acts.append(["step", d.choice(("EL", "ER"))])       # intake only: no sync step may carry the first op across
+        acts.append(second)
+        for _ in range(d.int(0, 6)):
+            who = d.choice(("EL", "ER", "S"))
+            acts.append(["step", who, 0.02] if d.bool() else ["step", who])
+        acts.append(["settle"])
+        # the model only has to know that these names are spent
+        for q in [f] + ([opa[4]] if kind == "rename" else []):
+            world.retired.add(q)
+        world.exp_valid = False
+    return {"cfg": cfg, "acts": acts}
+
+
+def run_xmove(trace):
+    r = Run(trace)
+    out = r.execute()
+    if out["status"] == "ok":
+        out["labels"] = out.get("labels", []) + ["xmove"]
+        out["nontrivial"] = r.boundary > 0
+    return out
+
+
+PARTS = {"xmove": (gen_xmove, run_xmove)}
